@@ -41,6 +41,23 @@ var topos = []topo{
 	{"F/c", []string{"f", "c0"}, []int{1}},         // concurrent internal limit under a fixed-window quota
 	{"P/f/c", []string{"c", "f0", "c1"}, []int{2}}, // concurrent under fixed-window under concurrent
 	{"P/f+P", []string{"c", "f0"}, []int{1, 0}},    // child first, then its concurrent parent
+	// fixed-window levels grouped by a request header (one counter object per header value; the provider's response and
+	// the proxy-error report carry no such header)
+	{"P/g", []string{"c", "g0"}, []int{1}},
+	{"P/g/g", []string{"c", "g0", "g1"}, []int{2}},
+	{"P/g/c", []string{"c", "g0", "c1"}, []int{2}},
+	{"G>C", []string{"g", "c"}, []int{0, 1}},
+	{"P/g+P", []string{"c", "g0"}, []int{1, 0}},
+	{"G/c", []string{"g", "c0"}, []int{1}},
+}
+
+func (t topo) grouped() bool {
+	for _, q := range t.quotas {
+		if q[0] == 'g' {
+			return true
+		}
+	}
+	return false
 }
 
 type gcfg struct {
@@ -86,10 +103,10 @@ func (g gcfg) body() string {
 			ex = "-"
 		}
 		switch {
-		case q == "f":
-			fmt.Fprintf(&b, " q%d=f", i)
-		case q[0] == 'f':
-			fmt.Fprintf(&b, " q%d=f,%s", i, q[1:])
+		case q == "f" || q == "g":
+			fmt.Fprintf(&b, " q%d=%s", i, q)
+		case q[0] == 'f' || q[0] == 'g':
+			fmt.Fprintf(&b, " q%d=%c,%s", i, q[0], q[1:])
 		case q == "c":
 			fmt.Fprintf(&b, " q%d=c,%d,%s,-", i, g.max[i], ex)
 		default:
@@ -287,7 +304,7 @@ func randomCase(r *prng.R, id string, maxLen int) proto.Case {
 		}
 		switch k := r.Intn(100); {
 		case k < 38:
-			if g.flt != nil {
+			if g.flt != nil || g.tp.grouped() {
 				h.reqShaped(tx, r.Chance(45), prng.Pick(r, []string{"x", "x", "y"}), r.Chance(40))
 			} else {
 				h.req(tx, r.Chance(20))
@@ -664,6 +681,44 @@ func retryFamily(emit func(proto.Case)) {
 	}
 }
 
+// fixed-window levels grouped by a request header in a tree with a concurrent quota: transactions that carry the header
+// (first: the default group has never been used) or not, ended by every release path — the proxy-error report and the
+// provider's response come without the header, a refusal / early answer is processed with the request's own headers.
+func groupFamily(emit func(proto.Case)) {
+	id := 0
+	for _, tp := range topos {
+		if !tp.grouped() {
+			continue
+		}
+		for _, first := range []bool{true, false} { // does the first transaction carry the header
+			for _, early := range []bool{false, true} {
+				n := len(tp.quotas)
+				g := gcfg{t0: baseT0, gcSec: 1, early: early, tp: tp, max: make([]int64, n), expSec: make([]int64, n)}
+				for i := range tp.quotas {
+					g.max[i], g.expSec[i] = 1, 2
+				}
+				h := &hist{g: g, now: g.t0}
+				h.ops = append(h.ops, g.line())
+				h.reqShaped(1, false, "x", first)
+				h.reqShaped(2, false, "x", true) // refused
+				h.ops = append(h.ops, "err r=1")
+				h.reqShaped(3, false, "x", true)
+				h.resp(3)
+				h.reqShaped(4, true, "x", true) // POST: answered by the flow itself when `early`
+				h.resp(4)
+				h.reqShaped(5, false, "x", !first)
+				h.reqShaped(5, false, "x", first) // the same transaction again, in the other group
+				h.ops = append(h.ops, "err r=5")
+				h.reqShaped(6, false, "x", true)
+				h.apply("expire 0")
+				h.reqShaped(7, false, "x", false)
+				id++
+				emit(proto.Case{ID: fmt.Sprintf("group%d", id), Ops: h.ops})
+			}
+		}
+	}
+}
+
 func gen(r *prng.R, f proto.Flags, emit func(proto.Case)) {
 	n := 1500
 	if f.Tier == "thorough" {
@@ -695,6 +750,7 @@ func gen(r *prng.R, f proto.Flags, emit func(proto.Case)) {
 		}
 	}
 	defaultsFamily(emit)
+	groupFamily(emit)
 	retryFamily(emit)
 	rewriteFamily(emit)
 	reloadFamily(emit)
